@@ -232,7 +232,9 @@ func (f *function) newThread() *starlark.Thread {
 	thread := &starlark.Thread{
 		Name: f.label.String(),
 		Print: func(_ *starlark.Thread, msg string) {
-			f.proj.events.Print(f.label, msg)
+			// print() writes to the target's output like everything else the body runs, so
+			// that it stays in order with a line that is still being written.
+			fmt.Fprintln(f.out, msg)
 		},
 		Load: func(_ *starlark.Thread, module string) (starlark.StringDict, error) {
 			return nil, errors.New("targets cannot load modules")
